@@ -353,7 +353,145 @@ def random_case(draw):
             'dups': [[draw(st.integers(1, n - 1)), 0]] if n > 1 and draw(st.integers(0, 3)) == 0 else []}
 
 
+# =====================================================================================
+# real back ends behind the edge: DiskStorage with an injected I/O error, ProxyQueue over a real PipeRelay
+# =====================================================================================
+
+def _drive_edge(edge_kind, queue, rcpts):
+    """One message through the edge; -> class of the final reply ('2', '4', '5') or None."""
+    body = b'Subject: t\r\n\r\nbody\r\n'
+    if edge_kind == 'smtp':
+        lines = [b'EHLO c\r\n', b'MAIL FROM:<s@x.example>\r\n'] + [('RCPT TO:<%s>\r\n' % r).encode() for r in rcpts] + \
+                [b'DATA\r\n', body + b'.\r\n', b'QUIT\r\n']
+        sock = ScriptedSocket(lines)
+        edge = SmtpEdge(None, queue, hostname='edge')
+        g = gevent.spawn(lambda: edge.handle(sock, ('1.2.3.4', 5)))
+        g.join(timeout=20)
+        if not g.dead:
+            g.kill(block=False)
+            return 'hang'
+        replies, _ = sm.parse_replies(sock.output())
+        want = 3 + len(rcpts) + 1
+        return replies[want][0][0] if len(replies) > want else None
+    status = {}
+    environ = {'REQUEST_METHOD': 'POST', 'PATH_INFO': '/', 'CONTENT_TYPE': 'message/rfc822',
+               'CONTENT_LENGTH': str(len(body)), 'wsgi.input': io.BytesIO(body), 'REMOTE_ADDR': '1.2.3.4',
+               'HTTP_X_ENVELOPE_SENDER': base64.b64encode(b's@x.example').decode(),
+               'HTTP_X_ENVELOPE_RECIPIENT': ', '.join(base64.b64encode(r.encode()).decode() for r in rcpts),
+               'HTTP_X_EHLO': 'c', 'wsgi.url_scheme': 'http'}
+    edge = WsgiEdge(queue, hostname='edge')
+
+    def run():
+        try:
+            list(edge(environ, lambda st_, headers: status.update(status=st_)) or [])
+        except Exception:
+            pass
+    g = gevent.spawn(run)
+    g.join(timeout=20)
+    if not g.dead:
+        g.kill(block=False)
+        return 'hang'
+    s_ = status.get('status')
+    return None if not s_ else ('2' if s_[0] == '2' else ('4' if s_[:3] == '503' else '5'))
+
+
+def run_real_case(case):
+    import os
+    import shutil
+    import tempfile
+    n = case['nrcpt']
+    rcpts = ['r%d@d%d.example' % (i, i % 2) for i in range(n)]
+    desc = repr(case)
+    if case['real'] == 'pipe':
+        from slimta.relay.pipe import PipeRelay
+        d = tempfile.mkdtemp(prefix='vfc02p_')
+        try:
+            prog = os.path.join(d, 'deliver.sh')
+            arms = ''.join('r%d@*) %s;;\n' % (i, 'exit %d' % st_ if st_ >= 0 else 'kill -%d $$; sleep 5' % -st_)
+                           for i, st_ in enumerate(case['status'][:n]))
+            with open(prog, 'w') as f:
+                f.write('#!/bin/sh\ncat >/dev/null\ncase "$1" in\n%sesac\nexit 0\n' % arms)
+            os.chmod(prog, 0o755)
+            queue = ProxyQueue(PipeRelay([prog, '{recipient}'], timeout=20))
+            fr = _drive_edge(case['edge'], queue, rcpts)
+        finally:
+            shutil.rmtree(d, ignore_errors=True)
+        all_ok = all(st_ == 0 for st_ in (case['status'] + [0] * n)[:n])
+        what = 'delivery program statuses %r' % case['status'][:n]
+    else:
+        from slimta.diskstorage import DiskStorage
+        from vf.props import c04
+        d = tempfile.mkdtemp(prefix='vfc02d_')
+        try:
+            for sub in ('env', 'meta', 'tmp'):
+                os.mkdir(os.path.join(d, sub))
+            store = DiskStorage(os.path.join(d, 'env'), os.path.join(d, 'meta'), os.path.join(d, 'tmp'))
+            queue = Queue(store)
+            for p_ in case.get('policies', []):
+                queue.add_policy({'split': RecipientSplit, 'domsplit': RecipientDomainSplit, 'received': AddReceivedHeader}[p_]())
+            fired = []
+            if case.get('ioerr'):
+                ename, k = case['ioerr']
+                cnt = [0]
+
+                def hook(effect):
+                    if ename in ('any', effect):
+                        cnt[0] += 1
+                        if cnt[0] == k + 1:
+                            fired.append(effect)
+                            raise OSError(28, 'No space left on device')
+                c04.REC.hook = hook
+            try:
+                fr = _drive_edge(case['edge'], queue, rcpts)
+            finally:
+                c04.REC.hook = None
+            # custody actually taken: what a fresh storage object finds
+            fresh = DiskStorage(os.path.join(d, 'env'), os.path.join(d, 'meta'), os.path.join(d, 'tmp'))
+            covered = []
+            for _, i in fresh.load():
+                try:
+                    covered += list(fresh.get(i)[0].recipients)
+                except Exception:
+                    pass
+        finally:
+            shutil.rmtree(d, ignore_errors=True)
+        all_ok = sorted(covered) == sorted(rcpts)
+        what = 'storage holds %r of %r (I/O error injected at %r)' % (sorted(covered), rcpts, fired)
+    out = []
+    if fr == 'hang':
+        return [('C02:edge-hangs:%s:%s' % (case['edge'], case['real']), desc)], True
+    if fr == '2' and not all_ok:
+        out.append(('C02:success-reply-without-custody:%s:%s' % (case['edge'], case['real']),
+                    '%s: success reply although %s' % (desc, what)))
+    if fr is not None and fr != '2' and all_ok and not (case.get('ioerr') and fired):
+        out.append(('C02:failure-reply-although-custody-taken:%s:%s' % (case['edge'], case['real']), '%s: reply class %s' % (desc, fr)))
+    nt = (case['real'] == 'pipe' and not all_ok) or bool(case.get('ioerr') and fired)
+    return out, nt
+
+
+def real_table():
+    for edge in ('smtp', 'wsgi'):
+        for n in (1, 2, 3):
+            for bad in range(n):
+                for st_ in (1, 75, -9, -15):
+                    status = [0] * n
+                    status[bad] = st_
+                    yield {'real': 'pipe', 'edge': edge, 'nrcpt': n, 'status': status}
+            yield {'real': 'pipe', 'edge': edge, 'nrcpt': n, 'status': [0] * n}
+        for policies in ([], ['split'], ['domsplit']):
+            for n in (1, 2, 3):
+                yield {'real': 'disk', 'edge': edge, 'nrcpt': n, 'policies': policies, 'ioerr': None}
+                for ename in ('mkstemp', 'chunk-write', 'rename'):
+                    for k in range(0, 2 * (n if policies else 1)):
+                        yield {'real': 'disk', 'edge': edge, 'nrcpt': n, 'policies': policies, 'ioerr': [ename, k]}
+
+
 def run_shard(ctx):
+    for i, case in enumerate(real_table()):
+        if not ctx.mine(i):
+            continue
+        f, nt = run_real_case(case)
+        ctx.record(repr(case), nt, labels=['real', 'edge=' + case['edge'], 'queue=' + case['real']], case=case, failures=f)
     for i, case in enumerate(table()):
         if not ctx.mine(i):
             continue
@@ -371,6 +509,19 @@ def run_shard(ctx):
 
 
 def replay(case):
+    if case.get('real') in ('pipe', 'disk') and case.get('edge') in ('smtp', 'wsgi'):
+        try:
+            c = {'real': case['real'], 'edge': case['edge'], 'nrcpt': max(1, min(3, int(case.get('nrcpt', 1))))}
+            if c['real'] == 'pipe':
+                c['status'] = [int(x) if -31 <= int(x) <= 255 else 1 for x in case.get('status', [])] or [0]
+            else:
+                c['policies'] = [p for p in case.get('policies', []) if p in ('split', 'domsplit', 'received')]
+                io_ = case.get('ioerr')
+                c['ioerr'] = [io_[0], max(0, int(io_[1]))] if isinstance(io_, list) and len(io_) == 2 and io_[0] in \
+                    ('mkstemp', 'chunk-write', 'rename', 'unlink', 'any') else None
+        except (ValueError, TypeError):
+            return []
+        return run_real_case(c)[0]
     if case.get('edge') not in ('smtp', 'wsgi', 'wsgi-http') or case.get('queue') not in ('queue', 'proxy'):
         return []
     case = dict(case)
